@@ -131,6 +131,11 @@ class C14(Prop):
                 ax = dd["axes"][d]
                 which = rng.choice(["take_axis", "sort_axis", "reindex_axis"])
                 c = {"op": which, "ds": dd, "dim": d, "by": rng.choice(["name", "pos"])}
+                if which == "sort_axis" and len(ax["labels"]) >= 2 and rng.random() < 0.4:
+                    # repeated labels: the Dataset and the per-variable sort must move the same slices
+                    k = rng.randrange(1, len(ax["labels"]))
+                    ax["labels"][k] = ax["labels"][0]
+                    c["_duplicates"] = True
                 if which == "take_axis":
                     c["indices"] = [rng.choice(ax["labels"]) for _ in range(rng.randint(1, 3))]
                 if which == "reindex_axis":
@@ -145,7 +150,25 @@ class C14(Prop):
                 yield {"op": "interp_axis", "ds": dd, "dim": d, "labels": [gen.enc(p) for p in pts], "by": "name"}
             elif r < 0.85:
                 dd = gen_dataset(rng)
-                yield {"op": "arith", "ds": dd, "how": rng.choice(["ds_ds", "scalar", "neg", "rscalar"]), "operator": rng.choice(["add", "sub", "mul"])}
+                how = rng.choice(["ds_ds", "ds_ds_other", "ds_ds_other", "scalar", "neg", "rscalar"])
+                c = {"op": "arith", "ds": dd, "how": how, "operator": rng.choice(["add", "sub", "mul"])}
+                if how == "ds_ds_other":
+                    # the right operand carries labels the left one lacks (and lacks some the left one has)
+                    d = rng.choice(dd["dims"])
+                    ax = dd["axes"][d]
+                    other = copy.deepcopy(dd)
+                    labs = list(ax["labels"])
+                    new = gen.absent_label(rng, ax)
+                    mode = rng.choice(["append", "replace_first", "prepend"])
+                    if mode == "append" or not labs:
+                        labs = labs + [new]
+                    elif mode == "prepend":
+                        labs = [new] + labs
+                    else:
+                        labs = labs[1:] + [new]
+                    other["axes"][d] = dict(ax, labels=labs)
+                    c["other"] = other
+                yield c
             else:
                 # stack_ds / concatenate_ds: several datasets with the same variables and dims
                 dd = gen_dataset(rng, nvars=rng.randint(1, 3))
@@ -239,8 +262,8 @@ class C14(Prop):
                 if op == "arith":
                     import operator
                     f = {"add": operator.add, "sub": operator.sub, "mul": operator.mul}[c["operator"]]
-                    if c["how"] == "ds_ds":
-                        other = build_dataset(c["ds"], base=7)
+                    if c["how"] in ("ds_ds", "ds_ds_other"):
+                        other = build_dataset(c.get("other") or c["ds"], base=7)
                         r = f(ds, other)
                         exp = {k: core.guarded(lambda: core.obs_array(f(ds[k], other[k]))) for k in ds.keys()}
                     elif c["how"] == "scalar":
